@@ -29,7 +29,13 @@ def run(ctx):
                        'one quantized base type in the Units menus (scaled units only)']
     for name, menu, depth in MENUS[ctx.tier]:
         unitscheck.run_menu(ctx, name, menu, depth)
+    # long random histories over the whole menu (61 items), replayed on the specification (UnitsTrace.tla)
+    from checks import unitstrace
+    unitstrace.run(ctx, 150 if ctx.tier == 'quick' else 3000, 30 if ctx.tier == 'quick' else 40)
 
 
 def replay(ctx, rp):
+    if rp['replay'].get('kind') == 'unitstrace':
+        from checks import unitstrace
+        return unitstrace.replay(ctx, rp)
     unitscheck.replay_path(ctx, rp)
